@@ -104,6 +104,28 @@ def apply_overlay(am):
         txt = txt.replace(r["old"], r["new"])
         open(p, "w").write(txt)
         report["replaced"].append({"name": r["name"], "file": r["file"]})
+    # 2b. generic: any other import of std's hash_map::Entry is bound to the map stub under cfg(kani)
+    #     (a changed tree may import it in a file the manifest does not anchor; without this the overlay would not compile)
+    for root, _d, files in os.walk(os.path.join(am, "src")):
+        if "amv_h" in root:
+            continue
+        for fn in files:
+            if not fn.endswith(".rs"):
+                continue
+            p = os.path.join(root, fn)
+            txt = open(p).read()
+            new = txt
+            m = re.search(r"^use std::\{([^{}\n]*(?:\{[^{}\n]*\}[^{}\n]*)*)\};$", new, re.M)
+            for m in list(re.finditer(r"^use std::\{(.*)\};$", new, re.M)):
+                items = m.group(1)
+                if "collections::hash_map::Entry" in items and "vmap" not in items:
+                    kept = re.sub(r"collections::hash_map::Entry,?\s*", "", items).rstrip(", ")
+                    rep = "use std::{%s};\n#[cfg(not(kani))]\nuse std::collections::hash_map::Entry;\n#[cfg(kani)]\nuse crate::amv::vmap::Entry;" % kept
+                    new = new.replace(m.group(0), rep)
+            new2 = re.sub(r"^use std::collections::hash_map::Entry;$", "#[cfg(not(kani))]\nuse std::collections::hash_map::Entry;\n#[cfg(kani)]\nuse crate::amv::vmap::Entry;", new, flags=re.M) if "#[cfg(not(kani))]\nuse std::collections::hash_map::Entry;" not in new else new
+            if new2 != txt:
+                open(p, "w").write(new2)
+                report["replaced"].append({"name": "generic hash_map::Entry binding", "file": os.path.relpath(p, am)})
     # 3. statement slices (verbatim runs of source lines copied into a generated wrapper)
     for s in man.get("slice", []):
         p = os.path.join(am, s["file"])
